@@ -13,7 +13,7 @@ EXPLANATION = ("The density (mass or number), the volume and the proportions are
                "n_i = amount_i*n, N_i = n_i*V and that the outputs do not depend on the input units.")
 ASSUMPTIONS = matkit.MAT_STUB_TEXT + ["a division by a term that may be zero forks; on the zero side the library's own ZeroDivisionError propagates and is reported (no denominator is assumed away)", "all inputs positive", "claims up to 1e-9 relative, posed abs-free to nlsat"]
 OUTSIDE = ['binary64 rounding', 'more than 3 components']
-BOUNDS = {'quick': 'element, substance (formula and dict), material (3 norm types) x {mass density, number density} x {with, without volume} x 3 input-unit choices',
+BOUNDS = {'quick': 'element, substance (formula and dict), material (3 norm types) x {mass density, number density} x {with, without volume} x 3 input-unit choices; elements with counts (also [n], [p], [e]); add() of existing / new components; specific-volume densities; components with amount zero (concrete)',
           'thorough': 'same with more substances and unit choices'}
 EXHAUSTIVE = {'quick': False, 'thorough': False}
 PRE = "from scinumtools.materials import Element, Substance, Material, Norm\nfrom scinumtools.units import Quantity\n" + matkit.MAT_SRC + unitkit.REF_SRC + '''
